@@ -43,6 +43,7 @@ Qed.
 
 (* ------------------------------------------------------------------ trace and counters *)
 Definition mstate (s : state) : ms := tracks ms0 (trace s).
+Arguments mstate s : simpl never.
 Definition emits (os : list oev) (s : state) : state :=
   mkSt (s_srv s) (s_fired s) (s_lost s) (s_armed s) (s_queue s) (s_conns s) (rev os ++ s_out s).
 Definition Good (chk : ms -> oev -> bool) (s : state) : Prop := mon_from chk ms0 (trace s) = true.
@@ -327,7 +328,7 @@ Lemma full_conn_silent : forall ns g q s c x f,
   Full ns g q (modc c f s).
 Proof.
   intros. change (modc c f s) with (emits [] (modc c f s)).
-  eapply full_conn with (fy := fun y => y); eauto.
+  eapply full_conn with (fy := fun y => y) (x := x); auto.
   apply conn_only_nil. eapply full_lt; eauto.
 Qed.
 
@@ -337,15 +338,14 @@ Proof.
   intros ns g q s c F. unfold close_if_idle. destruct (get c s) as [x|] eqn:Hx; auto.
   destruct (closes g x) eqn:Hc; auto.
   assert (HR := full_get _ _ _ _ _ _ F Hx).
-  rewrite emit_emits. eapply full_conn with (fy := cm_done); eauto.
-  - apply conn_only_updc.
-  - rc_start HR. unfold closes in Hc. apply andb_prop in Hc. destruct Hc as [Ht Hc].
+  rewrite emit_emits.
+  eapply full_conn with (fy := cm_done) (x := x);
+    [exact F | exact Hx | apply conn_only_updc | reflexivity | reflexivity | | discriminate | discriminate | reflexivity].
+  rc_start HR. unfold closes in Hc. apply andb_prop in Hc. destruct Hc as [Ht Hc].
     destruct x as [k p t cu ga il go fa ke]. cbn in *.
     unfold drained in Hc. cbn in Hc.
     destruct p; try discriminate; constructor; cbn in *; auto; intros; rc_fin.
     all: destruct il; try discriminate; rc_fin.
-  - cbn. discriminate.
-  - cbn. discriminate.
 Qed.
 
 Lemma full_mark_told : forall ns g q s c,
@@ -355,8 +355,9 @@ Proof.
   destruct (live x && negb (c_told x)) eqn:Hc; auto.
   apply andb_prop in Hc. destruct Hc as [Hl Ht]. apply negb_true_iff in Ht.
   assert (HR := full_get _ _ _ _ _ _ F Hx).
-  rewrite emit_emits. eapply full_conn with (fy := cm_told); eauto.
-  - apply conn_only_updc.
+  rewrite emit_emits.
+  eapply full_conn with (fy := cm_told) (x := x);
+    [exact F | exact Hx | apply conn_only_updc | reflexivity | | | auto | auto | reflexivity].
   - intros _. cbn. rc_start HR. rewrite Rtold, Ht. reflexivity.
   - rc_start HR. unfold live in Hl. unfold watch_closed in W.
     destruct x as [k p t cu ga il go fa ke]. cbn in *. subst t.
@@ -521,7 +522,8 @@ Qed.
 Lemma full_set_accepting : forall ns g q s,
   Full ns g q s -> srv_done s = false -> Full ns g q (set_srv SAccepting s).
 Proof.
-  intros ns g q s [R G] Hd. split; [| exact G]. unfold srv_done in *. destruct R. constructor; cbn; auto.
+  intros ns g q s [R G] Hd. split; [| exact G]. unfold srv_done in *. destruct R.
+  change (mstate (set_srv SAccepting s)) with (mstate s). constructor; cbn; auto.
   - rewrite g_server0. destruct (s_srv s); auto; discriminate.
   - intros H. apply g_cause0. unfold srv_done. rewrite Hd. exact H.
   - intros c x Hn. specialize (g_conns0 c x Hn). unfold srv_done in g_conns0. now rewrite Hd in g_conns0.
@@ -540,11 +542,11 @@ Proof.
   - rewrite Hm. constructor; cbn; auto.
     intros c x Hn. specialize (g_conns0 c x Hn). rewrite Hd in g_conns0. now apply rc_mono.
   - apply good_emit; [eapply good_out; [| exact G9]; reflexivity |].
-    erewrite mstate_out by reflexivity. exact Hc.
+    change (mstate (set_srv (SDone r) s)) with (mstate s). exact Hc.
   - intros Hns. destruct (G7 Hns) as [NS G]. split; [exact NS |].
     apply good_emit; [eapply good_out; [| exact G]; reflexivity |].
-    erewrite mstate_out by reflexivity. cbn. rewrite g_fired0.
-    destruct (s_fired s) eqn:Hf; auto. cbn. now apply Hr.
+    change (mstate (set_srv (SDone r) s)) with (mstate s). cbn. rewrite g_fired0.
+    destruct (s_fired s) eqn:Hf; cbn; auto.
 Qed.
 
 (* an event that leaves the counters alone *)
@@ -568,11 +570,11 @@ Proof.
   assert (HR := full_get _ _ _ _ _ _ F Hx).
   assert (Hc : k_cause (mstate s) = true).
   { destruct (full_rel _ _ _ _ F). apply g_cause0. rewrite Hd. now rewrite !orb_true_r. }
-  rewrite emit_emits. eapply full_conn with (fy := fun y => y); eauto.
-  - apply conn_only_updc.
-  - rc_start HR. destruct x as [k p t cu ga il go fa ke]. cbn in *. subst p.
-    constructor; cbn in *; auto; intros; rc_fin.
-  - cbn. discriminate.
+  rewrite emit_emits.
+  eapply full_conn with (fy := fun y => y) (x := x);
+    [exact F | exact Hx | apply conn_only_updc | reflexivity | reflexivity | | discriminate | auto | reflexivity].
+  rc_start HR. destruct x as [k p t cu ga il go fa ke]. cbn in *. subst p.
+  constructor; cbn in *; auto; intros; rc_fin.
 Qed.
 
 Lemma refuse_same : forall c s,
@@ -612,11 +614,1042 @@ Proof.
     refine (conj _ (conj _ (conj _ (conj _ _)))); try congruence.
     + apply full_refuse; auto. unfold srv_done in *. now rewrite A.
     + intros c' x Hg Hp. eapply D; eauto.
-  - intros s' c _. apply refuse_same.
+  - intros s' c _. destruct (refuse_same c s') as (_ & _ & _ & _ & E' & _). exact E'.
   - intros s' c j _ HQ x Hg Hp. destruct (refuse_same c s') as (_ & _ & _ & _ & _ & G').
     eapply HQ; eauto.
   - refine (conj _ (conj _ (conj _ (conj _ _)))); auto.
   - destruct HP as (F' & A & B & C & D).
     refine (conj _ (conj _ (conj _ (conj _ _)))); auto.
     intros _ c x Hg. apply (HQ c); auto. apply in_seq. apply get_some_lt in Hg. lia.
+Qed.
+
+(* ------------------------------------------------------------------ the accept loop *)
+Lemma rc_spawn : forall g sd cz x y,
+  Rc g sd cz x y -> c_ph x = Queued -> Rc g sd cz (spawn_ph g x) (cm_sp (cm_acc y)).
+Proof.
+  intros g sd cz x y HR Hp. rc_start HR. unfold spawn_ph, initial_phase.
+  destruct x as [k p t cu ga il go fa ke]. cbn in *. subst p.
+  destruct (is_auto (g_proto g)); [destruct (kind_eqb k KH2) |];
+    constructor; cbn in *; auto; intros; rc_fin.
+Qed.
+
+Lemma spawn_ph_not_queued : forall g x, c_ph (spawn_ph g x) <> Queued.
+Proof.
+  intros. unfold spawn_ph, initial_phase. cbn.
+  destruct (is_auto (g_proto g)); [destruct (kind_eqb (c_kind x) KH2) |]; discriminate.
+Qed.
+
+Lemma accept_loop_spec : forall ns g q s,
+  Full ns g q s -> s_fired s = false -> srv_done s = false ->
+  (forall q0, Full ns g q0 (accept_loop g q s))
+  /\ s_fired (accept_loop g q s) = false
+  /\ (srv_done (accept_loop g q s) = true
+      \/ forall c x, get c (accept_loop g q s) = Some x -> c_ph x <> Queued).
+Proof.
+  intros ns g q. induction q as [|e q' IH]; intros s F Hf Hd.
+  - (* queue drained *)
+    cbn [accept_loop]. destruct (s_lost s) eqn:Hl.
+    + assert (F1 : Full ns g [] (emit OAcceptErr (set_queue [] s))).
+      { apply full_emit_plain; auto. now apply full_set_queue. }
+      assert (Hc : k_cause (mstate (emit OAcceptErr (set_queue [] s))) = true).
+      { destruct (full_rel _ _ _ _ F1). apply g_cause0. cbn. rewrite Hl. now rewrite orb_true_r. }
+      split; [| split].
+      * intros q0. eapply full_finish; eauto. intros _ H. cbn in H. congruence.
+      * exact Hf.
+      * left. reflexivity.
+    + assert (F1 : Full ns g [] (set_srv SAccepting (set_queue [] s))).
+      { apply full_set_accepting; auto. now apply full_set_queue. }
+      assert (NQ : forall c x, get c (set_srv SAccepting (set_queue [] s)) = Some x -> c_ph x <> Queued).
+      { intros c x Hg Hp. destruct (full_rel _ _ _ _ F1). destruct (g_queue0 c x Hg Hp) as [[] | [H | H]].
+        - unfold srv_done in *. cbn in H. discriminate.
+        - cbn in H. congruence. }
+      split; [| split]; auto.
+      intros q0. eapply full_queue_param; [exact F1 |]. intros c x Hg Hp. now apply NQ in Hg.
+  - destruct e as [c |].
+    2:{ (* a dead request: skipped *)
+        cbn [accept_loop]. apply IH; auto. eapply full_queue_param; [exact F |].
+        intros c x _ _ [H | H]; [discriminate | auto]. }
+    cbn [accept_loop].
+    assert (Skip : (forall x, get c s = Some x -> c_ph x <> Queued) -> Full ns g q' s).
+    { intros Hn. eapply full_queue_param; [exact F |]. intros c' x Hg Hp [H | H]; auto.
+      inv H. now apply Hn in Hg. }
+    destruct (get c s) as [x|] eqn:Hx.
+    2:{ apply IH; auto. apply Skip. intros; congruence. }
+    destruct (c_ph x) eqn:Hp; try (apply IH; auto; apply Skip; intros x' H; inv H; congruence).
+    assert (HR := full_get _ _ _ _ _ _ F Hx).
+    assert (Hfm : k_fired (mstate s) = false).
+    { destruct (full_rel _ _ _ _ F). congruence. }
+    change (s_armed (emit (OAccept c) s)) with (s_armed s).
+    destruct (s_armed s) eqn:Ha.
+    + (* the make-service fails: the connection is dropped with the accept loop *)
+      assert (Hc : k_cause (mstate s) = true).
+      { destruct (full_rel _ _ _ _ F). apply g_cause0. rewrite Ha. now rewrite orb_true_r. }
+      assert (F1 : Full ns g (QLive c :: q') (emits [OAccept c] (modc c (w_ph Dropped) s))).
+      { eapply full_conn with (fy := cm_acc) (x := x);
+          [exact F | exact Hx | apply conn_only_updc | reflexivity | | | discriminate | auto | reflexivity].
+        - intros _. cbn. now rewrite Hfm.
+        - rc_start HR. destruct x as [k p t cu ga il go fa ke]. cbn in *. subst p.
+          constructor; cbn in *; auto; intros; rc_fin. }
+      change (finish false (set_queue q' (set_armed false (modc c (w_ph Dropped) (emit (OAccept c) s)))))
+        with (finish false (set_queue q' (set_armed false (emits [OAccept c] (modc c (w_ph Dropped) s))))).
+      split; [| split].
+      * intros q0. eapply full_finish.
+        -- apply full_set_queue. apply full_set_armed_false. exact F1.
+        -- exact Hd.
+        -- change (k_cause (mstate (emits [OAccept c] (modc c (w_ph Dropped) s))) = true).
+           rewrite mstate_emits. exact Hc.
+        -- intros _ H. cbn in H. congruence.
+      * exact Hf.
+      * left. reflexivity.
+    + (* spawned *)
+      change (emit (OSpawn c) (modc c (spawn_ph g) (emit (OAccept c) s)))
+        with (emits [OAccept c; OSpawn c] (modc c (spawn_ph g) s)).
+      assert (F1 : Full ns g (QLive c :: q') (emits [OAccept c; OSpawn c] (modc c (spawn_ph g) s))).
+      { eapply full_conn with (fy := fun y => cm_sp (cm_acc y)) (x := x);
+          [exact F | exact Hx | eapply conn_only_trans; apply conn_only_updc | reflexivity | | now apply rc_spawn
+           | intros H; now apply spawn_ph_not_queued in H | auto | reflexivity].
+        intros _. cbn. now rewrite Hfm. }
+      apply IH; auto.
+      eapply full_queue_param; [exact F1 |]. intros c' x' Hg Hq [H | H]; auto.
+      inv H. rewrite get_emits, get_modc_eq, Hx in Hg. cbn in Hg. inv Hg.
+      now apply spawn_ph_not_queued in Hq.
+Qed.
+
+Lemma server_poll_done : forall g s, srv_done s = true -> server_poll g s = s.
+Proof. intros g s. unfold server_poll, srv_done. destruct (s_srv s); auto; discriminate. Qed.
+
+Lemma server_poll_live : forall g s, srv_done s = false ->
+  server_poll g s = if g_graceful g && s_fired s then finish true s else accept_loop g (s_queue s) s.
+Proof. intros g s. unfold server_poll, srv_done. destruct (s_srv s); auto; discriminate. Qed.
+
+Lemma server_poll_spec : forall ns g s,
+  Full ns g (s_queue s) s ->
+  (forall q0, Full ns g q0 (server_poll g s))
+  /\ s_fired (server_poll g s) = s_fired s
+  /\ (s_fired s = true -> srv_done (server_poll g s) = true)
+  /\ (srv_done (server_poll g s) = true
+      \/ forall c x, get c (server_poll g s) = Some x -> c_ph x <> Queued).
+Proof.
+  intros ns g s F.
+  assert (Done : srv_done s = true ->
+                 (forall q0, Full ns g q0 s) /\ s_fired s = s_fired s /\ (s_fired s = true -> srv_done s = true)
+                 /\ (srv_done s = true \/ forall c x, get c s = Some x -> c_ph x <> Queued)).
+  { intros Hd. refine (conj _ (conj _ (conj _ _))); auto. intros q0. eapply full_queue_param; [exact F |]. auto. }
+  assert (Live : srv_done s = false ->
+     (forall q0, Full ns g q0 (if g_graceful g && s_fired s then finish true s else accept_loop g (s_queue s) s))
+     /\ s_fired (if g_graceful g && s_fired s then finish true s else accept_loop g (s_queue s) s) = s_fired s
+     /\ (s_fired s = true -> srv_done (if g_graceful g && s_fired s then finish true s else accept_loop g (s_queue s) s) = true)
+     /\ (srv_done (if g_graceful g && s_fired s then finish true s else accept_loop g (s_queue s) s) = true
+         \/ forall c x, get c (if g_graceful g && s_fired s then finish true s else accept_loop g (s_queue s) s) = Some x -> c_ph x <> Queued)).
+  { intros Hd. destruct (g_graceful g && s_fired s) eqn:Hg.
+    - apply andb_prop in Hg. destruct Hg as [Hg Hf].
+      refine (conj _ (conj _ (conj _ _))); auto.
+      intros q0. eapply full_finish; eauto.
+      destruct (full_rel _ _ _ _ F). apply g_cause0. now rewrite Hf.
+    - assert (Hf : s_fired s = false).
+      { destruct (s_fired s) eqn:Hf; auto. destruct (full_rel _ _ _ _ F).
+        rewrite (g_grace0 Hf) in Hg. discriminate. }
+      destruct (accept_loop_spec ns g (s_queue s) s F Hf Hd) as (A & B & C).
+      refine (conj _ (conj _ (conj _ _))); auto; congruence. }
+  destruct (srv_done s) eqn:Hd.
+  - rewrite server_poll_done by auto. rewrite Hd. apply Done. reflexivity.
+  - rewrite server_poll_live by auto. apply Live. reflexivity.
+Qed.
+
+Lemma settle_spec : forall ns g s,
+  Full ns g (s_queue s) s ->
+  (forall q0, Full ns g q0 (settle g s)) /\ Quiet g (settle g s).
+Proof.
+  intros ns g s F. unfold settle.
+  destruct (server_poll_spec ns g s F) as (F1 & A1 & B1 & C1).
+  set (s1 := server_poll g s) in *.
+  destruct (refuse_queued_spec ns g [] s1 (F1 [])) as (F2 & A2 & B2 & C2 & D2).
+  set (s2 := refuse_queued s1) in *.
+  assert (Hd : srv_done s2 = srv_done s1) by (unfold srv_done; now rewrite A2).
+  assert (NQ : forall c x, get c s2 = Some x -> c_ph x <> Queued).
+  { intros c x Hg Hp. destruct C1 as [C1 | C1].
+    - eapply C2; eauto.
+    - eapply C1; eauto. }
+  destruct (drive_all_quiet ns g [] s2 F2) as [F3 Q3]; auto.
+  - intros Hf. rewrite Hd. apply B1. congruence.
+  - split; auto. intros q0. eapply full_queue_param; [exact F3 |].
+    intros c x Hg Hp. destruct Q3. now apply q_queued0 in Hg.
+Qed.
+
+(* ------------------------------------------------------------------ environment actions *)
+Definition FQx (ns : bool) (g : cfg) (q : list qent) (c : nat) (s : state) : Prop :=
+  Full ns g q s /\ QuietEx g c s.
+Definition FQ (ns : bool) (g : cfg) (q : list qent) (s : state) : Prop :=
+  Full ns g q s /\ Quiet g s.
+
+Lemma fq_weak : forall ns g q c s, FQ ns g q s -> FQx ns g q c s.
+Proof. intros ns g q c s [F Q]. split; auto. now apply quiet_weak. Qed.
+
+Lemma fq_close : forall ns g q c s, FQx ns g q c s -> FQ ns g q (close_if_idle g c s).
+Proof. intros ns g q c s [F Q]. split; [now apply full_close | now apply quietex_close]. Qed.
+
+Lemma fq_strong : forall ns g q c s,
+  FQx ns g q c s -> (forall x, get c s = Some x -> closes g x = false) -> FQ ns g q s.
+Proof. intros ns g q c s [F Q] H. split; auto. eapply quietex_strong; eauto. Qed.
+
+Lemma fq_conn : forall ns g q s c x f fy os,
+  FQx ns g q c s -> get c s = Some x ->
+  ConnOnly c fy (mstate s) (tracks (mstate s) os) ->
+  mon_from chk09 (mstate s) os = true ->
+  (ns = true -> mon_from chk07 (mstate s) os = true) ->
+  Rc g (srv_done s) (k_cause (mstate s)) (f x) (fy (k_conns (mstate s) c)) ->
+  c_ph (f x) <> Queued ->
+  (s_fired s = true -> c_cut (f x) = true -> c_cut x = true) ->
+  c_kind (f x) = c_kind x ->
+  (watch_closed g s = true -> live (f x) = true -> c_told (f x) = true) ->
+  FQx ns g q c (emits os (modc c f s)).
+Proof.
+  intros ns g q s c x f fy os [F Q] Hx CO M9 M7 HR Hp Hc Hk Ht. split.
+  - eapply full_conn; eauto. intros H. now apply Hp in H.
+  - eapply quietex_conn; eauto.
+Qed.
+
+Lemma fq_get : forall ns g q c s x,
+  FQx ns g q c s -> get c s = Some x ->
+  Rc g (srv_done s) (k_cause (mstate s)) x (k_conns (mstate s) c)
+  /\ c_ph x <> Queued
+  /\ (watch_closed g s = true -> live x = true -> c_told x = true)
+  /\ (s_fired s = true -> watch_closed g s = true)
+  /\ k_fired (mstate s) = s_fired s.
+Proof.
+  intros ns g q c s x [F Q] Hx. destruct Q. destruct (full_rel _ _ _ _ F).
+  refine (conj _ (conj _ (conj _ (conj _ _)))); eauto.
+  intros Hf. unfold watch_closed. rewrite g_grace0, e_fired0; auto.
+Qed.
+
+Lemma closes_infl : forall g x n l, c_ph x = Open -> c_infl x = n :: l -> closes g x = false.
+Proof.
+  intros g x n l Hp H. unfold closes, drained. rewrite H, Hp. cbn. apply andb_false_r.
+Qed.
+
+Lemma closes_untold : forall g x, c_told x = false -> closes g x = false.
+Proof. intros g x H. unfold closes. now rewrite H. Qed.
+
+Lemma fq_act_partial : forall ns g q c s, FQ ns g q s -> FQ ns g q (act_partial g c s).
+Proof.
+  intros ns g q c s FQ0. unfold act_partial. destruct (get c s) as [x|] eqn:Hx; auto.
+  destruct (usable x && kind_eqb (c_kind x) KH1 && idle x && negb (watch_closed g s)) eqn:Hc; auto.
+  apply andb_prop in Hc. destruct Hc as [Hc Hw]. apply andb_prop in Hc. destruct Hc as [Hc Hi].
+  apply andb_prop in Hc. destruct Hc as [Hu Hk]. apply negb_true_iff in Hw.
+  assert (FX := fq_weak _ _ _ c _ FQ0).
+  destruct (fq_get _ _ _ _ _ _ FX Hx) as (HR & Hq & Ht & Hfw & Hfm).
+  assert (Htold : c_told x = false).
+  { rc_start HR. destruct (c_told x) eqn:E; auto. specialize (Rwc eq_refl).
+    unfold watch_closed in Hw. congruence. }
+  rewrite emit_emits. eapply fq_strong with (c := c).
+  - eapply fq_conn with (fy := cm_begin) (x := x);
+      [exact FX | exact Hx | apply conn_only_updc | reflexivity | reflexivity | | discriminate | | reflexivity | ].
+    + rc_start HR. unfold usable, live, idle in *.
+      destruct x as [k p t cu ga il go fa ke]. cbn in *.
+      destruct il; try discriminate. apply negb_true_iff in Hi. subst cu.
+      destruct p; rewrite ?andb_false_r in Hu; try discriminate; constructor; cbn in *; auto; intros; rc_fin.
+    + intros Hf. apply Hfw in Hf. congruence.
+    + intros H. congruence.
+  - intros x'. rewrite get_emits, get_modc_eq, Hx. cbn. intros H. inv H.
+    apply closes_untold. exact Htold.
+Qed.
+
+Lemma fq_open_gate : forall ns g q c s, FQ ns g q s -> FQ ns g q (open_gate g c s).
+Proof.
+  intros ns g q c s FQ0. unfold open_gate. destruct (get c s) as [x|] eqn:Hx; auto.
+  destruct (kind_eqb (c_kind x) KCut && c_gate x) eqn:Hc; auto.
+  assert (FX := fq_weak _ _ _ c _ FQ0).
+  destruct (fq_get _ _ _ _ _ _ FX Hx) as (HR & Hq & Ht & Hfw & Hfm).
+  apply fq_close.
+  set (f := fun x0 : conn => w_gate false match c_ph x0 with Sniffing => w_ph Open x0 | _ => x0 end).
+  change (modc c f s) with (emits [] (modc c f s)).
+  eapply fq_conn with (fy := fun y => y) (x := x);
+    [exact FX | exact Hx | | reflexivity | reflexivity | | | | | ].
+  - apply conn_only_nil. destruct FX as [F _]. eapply full_lt; eauto.
+  - rc_start HR. subst f. destruct x as [k p t cu ga il go fa ke]. cbn in *.
+    destruct p; constructor; cbn in *; auto; intros; rc_fin.
+  - subst f. destruct x as [k p t cu ga il go fa ke]. cbn in *. destruct p; cbn; congruence.
+  - subst f. destruct x as [k p t cu ga il go fa ke]. cbn in *. destruct p; cbn; auto.
+  - subst f. destruct x as [k p t cu ga il go fa ke]. cbn in *. destruct p; reflexivity.
+  - intros Hw Hl. subst f. unfold live in *. destruct x as [k p t cu ga il go fa ke]. cbn in *.
+    destruct p; cbn in *; try discriminate; auto.
+Qed.
+
+Lemma rc_open_of_cut : forall g sd cz x y, Rc g sd cz x y -> c_cut x = true -> c_ph x = Open.
+Proof.
+  intros g sd cz x y HR Hc. rc_start HR. destruct (c_ph x); auto;
+    destruct (Rquiet eq_refl) as [_ H]; congruence.
+Qed.
+
+Lemma rc_open_of_infl : forall g sd cz x y n l, Rc g sd cz x y -> c_infl x = n :: l -> c_ph x = Open.
+Proof.
+  intros g sd cz x y n l HR Hc. rc_start HR. destruct (c_ph x); auto;
+    destruct (Rquiet eq_refl) as [H _]; congruence.
+Qed.
+
+Lemma fq_act_req : forall ns g q c s, FQ ns g q s -> FQ ns g q (act_req g c s).
+Proof.
+  intros ns g q c s FQ0. unfold act_req. destruct (get c s) as [x0|] eqn:Hx0; auto.
+  destruct (c_gone x0); auto.
+  assert (FQ1 := fq_open_gate ns g q c s FQ0).
+  set (s1 := open_gate g c s) in *. clearbody s1. clear Hx0 x0 FQ0.
+  destruct (get c s1) as [x|] eqn:Hx; auto.
+  assert (FX := fq_weak _ _ _ c _ FQ1).
+  destruct (fq_get _ _ _ _ _ _ FX Hx) as (HR & Hq & Ht & Hfw & Hfm).
+  destruct (c_cut x) eqn:Hcut.
+  - (* the cut head is completed: the handler is invoked *)
+    assert (Hop := rc_open_of_cut _ _ _ _ _ HR Hcut).
+    rewrite emit_emits. eapply fq_strong with (c := c).
+    + eapply fq_conn with (fy := cm_hand (k_fired (mstate s1))) (x := x);
+        [exact FX | exact Hx | apply conn_only_updc | reflexivity | | | | | reflexivity | ].
+      * intros _. cbn. rewrite andb_true_r. destruct (k_fired (mstate s1)) eqn:Hf; auto. cbn.
+        destruct FX as [F _]. destruct (full_rel _ _ _ _ F). rewrite g_snap0 with (x := x); auto; congruence.
+      * rc_start HR. destruct x as [k p t cu ga il go fa ke]. cbn in *. subst p cu.
+        destruct (k_fired (mstate s1)); constructor; cbn in *; auto; intros; rewrite ?app_length in *; rc_fin.
+      * cbn. congruence.
+      * cbn. discriminate.
+      * cbn. unfold live. cbn. rewrite Hop. intros Hw _. apply Ht; auto. unfold live. now rewrite Hop.
+    + intros x'. rewrite get_emits, get_modc_eq, Hx. cbn. intros H. inv H.
+      destruct (c_infl x) eqn:Hi; eapply closes_infl; cbn; eauto; rewrite Hi; reflexivity.
+  - destruct (usable x && negb (watch_closed g s1) && (negb (kind_eqb (c_kind x) KH1) || idle x)) eqn:Hc; auto.
+    apply andb_prop in Hc. destruct Hc as [Hc _]. apply andb_prop in Hc. destruct Hc as [Hu Hw].
+    apply negb_true_iff in Hw.
+    assert (Hnf : k_fired (mstate s1) = false).
+    { rewrite Hfm. destruct (s_fired s1) eqn:Hf; auto. rewrite Hfw in Hw; [discriminate | reflexivity]. }
+    change (emit (OHandler c) (emit (OBegin c) (modc c (fun x1 => w_infl (c_infl x1 ++ [3]) (w_ph Open x1)) s1)))
+      with (emits [OBegin c; OHandler c] (modc c (fun x1 => w_infl (c_infl x1 ++ [3]) (w_ph Open x1)) s1)).
+    eapply fq_strong with (c := c).
+    + eapply fq_conn with (fy := fun y => cm_hand (k_fired (mstate s1)) (cm_begin y)) (x := x);
+        [exact FX | exact Hx | eapply conn_only_trans; apply conn_only_updc | reflexivity | | | | | reflexivity | ].
+      * intros _. cbn. now rewrite Hnf.
+      * rc_start HR. rewrite Hnf. unfold usable, live in Hu.
+        destruct x as [k p t cu ga il go fa ke]. cbn in *. subst cu.
+        destruct p; rewrite ?andb_false_r in Hu; try discriminate;
+          constructor; cbn in *; auto; intros; rewrite ?app_length in *; rc_fin.
+      * cbn. discriminate.
+      * cbn. auto.
+      * cbn. intros Hw'. congruence.
+    + intros x'. rewrite get_emits, get_modc_eq, Hx. cbn. intros H. inv H.
+      destruct (c_infl x) eqn:Hi; eapply closes_infl; cbn; eauto; rewrite Hi; reflexivity.
+Qed.
+
+Lemma fq_act_step : forall ns g q c s, FQ ns g q s -> FQ ns g q (act_step g c s).
+Proof.
+  intros ns g q c s FQ0. unfold act_step. destruct (get c s) as [x|] eqn:Hx; auto.
+  destruct (c_gone x); auto. destruct (c_infl x) as [|n rest] eqn:Hi; auto.
+  assert (FX := fq_weak _ _ _ c _ FQ0).
+  destruct (fq_get _ _ _ _ _ _ FX Hx) as (HR & Hq & Ht & Hfw & Hfm).
+  assert (Hop := rc_open_of_infl _ _ _ _ _ _ _ HR Hi).
+  destruct (Nat.leb n 1).
+  - (* the response is finished *)
+    apply fq_close.
+    change (emit (OResp c) (emit (OEnvDone c) (modc c (fun x0 => w_kept (w_infl rest x0)) s)))
+      with (emits [OEnvDone c; OResp c] (modc c (fun x0 => w_kept (w_infl rest x0)) s)).
+    eapply fq_conn with (fy := fun y => cm_resp (cm_env y)) (x := x);
+      [exact FX | exact Hx | eapply conn_only_trans; apply conn_only_updc | reflexivity | reflexivity | | | | reflexivity | ].
+    + rc_start HR. destruct x as [k p t cu ga il go fa ke]. cbn in *. subst p il.
+      constructor; cbn in *; auto; intros; rc_fin.
+    + cbn. congruence.
+    + cbn. auto.
+    + cbn. unfold live. cbn. rewrite Hop. intros Hw _. apply Ht; auto. unfold live. now rewrite Hop.
+  - (* one stage further *)
+    change (modc c (w_infl (pred n :: rest)) s) with (emits [] (modc c (w_infl (pred n :: rest)) s)).
+    eapply fq_strong with (c := c).
+    + eapply fq_conn with (fy := fun y => y) (x := x);
+        [exact FX | exact Hx | | reflexivity | reflexivity | | | | reflexivity | ].
+      * apply conn_only_nil. destruct FX as [F _]. eapply full_lt; eauto.
+      * rc_start HR. destruct x as [k p t cu ga il go fa ke]. cbn in *. subst p il.
+        constructor; cbn in *; auto; intros; rc_fin.
+      * cbn. congruence.
+      * cbn. auto.
+      * cbn. unfold live. cbn. rewrite Hop. intros Hw _. apply Ht; auto. unfold live. now rewrite Hop.
+    + intros x'. rewrite get_emits, get_modc_eq, Hx. cbn. intros H. inv H.
+      eapply closes_infl; cbn; eauto.
+Qed.
+
+(* a fault that ends the connection: OFault, then the driver finishes *)
+Lemma fq_fault_close : forall ns g q c s x f,
+  FQx ns g q c s -> get c s = Some x -> live x = true ->
+  (forall y, f y = mkConn (c_kind y) (c_ph y) (c_told y) (c_cut y) (c_gate y) (c_infl (f y)) (c_gone (f y)) true (c_kept y)) ->
+  (c_ph x = Open \/ c_infl (f x) = c_infl x) ->
+  FQ ns g q (emit (ODone c) (modc c w_closed (emit (OFault c) (modc c f s)))).
+Proof.
+  intros ns g q c s x f FX Hx Hl Hf Hinf.
+  destruct (fq_get _ _ _ _ _ _ FX Hx) as (HR & Hq & Ht & Hfw & Hfm).
+  assert (F1 : FQx ns g q c (emits [OFault c] (modc c f s))).
+  { eapply fq_conn with (fy := cm_fault) (x := x);
+      [exact FX | exact Hx | apply conn_only_updc | reflexivity | reflexivity | | | | | ].
+    - rc_start HR. rewrite (Hf x). unfold live in Hl.
+      destruct x as [k p t cu ga il go fa ke]. cbn in *.
+      destruct p; try discriminate; constructor; cbn in *; auto; intros; try discriminate.
+      destruct Hinf as [H0 | H0]; [discriminate |]. rewrite H0. auto.
+    - rewrite (Hf x). cbn. exact Hq.
+    - intros _. rewrite (Hf x). cbn. auto.
+    - rewrite (Hf x). reflexivity.
+    - rewrite (Hf x). unfold live. cbn. exact Ht. }
+  change (emit (ODone c) (modc c w_closed (emit (OFault c) (modc c f s))))
+    with (emits [ODone c] (modc c w_closed (emits [OFault c] (modc c f s)))).
+  set (s1 := emits [OFault c] (modc c f s)) in *.
+  assert (Hx1 : get c s1 = Some (f x)).
+  { subst s1. rewrite get_emits, get_modc_eq, Hx. reflexivity. }
+  destruct (fq_get _ _ _ _ _ _ F1 Hx1) as (HR1 & _).
+  eapply fq_strong with (c := c).
+  - eapply fq_conn with (fy := cm_done) (x := f x);
+      [exact F1 | exact Hx1 | apply conn_only_updc | reflexivity | reflexivity | | | | reflexivity | ].
+    + rc_start HR1. rewrite (Hf x) in *. unfold live in Hl.
+      destruct x as [k p t cu ga il go fa ke]. cbn in *.
+      destruct p; try discriminate; constructor; cbn in *; auto; intros; try discriminate.
+    + cbn. discriminate.
+    + cbn. discriminate.
+    + cbn. unfold live. cbn. discriminate.
+  - intros x'. rewrite get_emits, get_modc_eq, Hx1. cbn. intros H. inv H. apply closes_closed.
+Qed.
+
+Lemma fq_act_herr : forall ns g q c s, FQ ns g q s -> FQ ns g q (act_herr g c s).
+Proof.
+  intros ns g q c s FQ0. unfold act_herr. destruct (get c s) as [x|] eqn:Hx; auto.
+  destruct (c_gone x); auto. destruct (c_infl x) as [|n rest] eqn:Hi; auto.
+  destruct (Nat.eqb n 2); auto.
+  assert (FX := fq_weak _ _ _ c _ FQ0).
+  destruct (fq_get _ _ _ _ _ _ FX Hx) as (HR & Hq & Ht & Hfw & Hfm).
+  assert (Hop := rc_open_of_infl _ _ _ _ _ _ _ HR Hi).
+  destruct (kind_eqb (c_kind x) KH1).
+  - eapply fq_fault_close with (x := x); eauto.
+    unfold live. now rewrite Hop.
+  - apply fq_close. rewrite emit_emits.
+    eapply fq_conn with (fy := cm_fault) (x := x);
+      [exact FX | exact Hx | apply conn_only_updc | reflexivity | reflexivity | | | | reflexivity | ].
+    + rc_start HR. destruct x as [k p t cu ga il go fa ke]. cbn in *. subst p il.
+      constructor; cbn in *; auto; intros; try discriminate.
+    + cbn. congruence.
+    + cbn. auto.
+    + cbn. unfold live. cbn. rewrite Hop. intros Hw _. apply Ht; auto. unfold live. now rewrite Hop.
+Qed.
+
+Lemma fq_act_disc : forall ns g q c s, FQ ns g q s -> FQ ns g q (act_disc c s).
+Proof.
+  intros ns g q c s FQ0. unfold act_disc. destruct (get c s) as [x|] eqn:Hx; auto.
+  destruct (c_gone x); auto.
+  assert (FX := fq_weak _ _ _ c _ FQ0).
+  destruct (fq_get _ _ _ _ _ _ FX Hx) as (HR & Hq & Ht & Hfw & Hfm).
+  destruct (live x) eqn:Hl.
+  - eapply fq_fault_close with (x := x); eauto.
+  - rewrite emit_emits. eapply fq_strong with (c := c).
+    + eapply fq_conn with (fy := cm_fault) (x := x);
+        [exact FX | exact Hx | apply conn_only_updc | reflexivity | reflexivity | | | | reflexivity | ].
+      * rc_start HR. unfold live in Hl. destruct x as [k p t cu ga il go fa ke]. cbn in *.
+        destruct p; try discriminate; constructor; cbn in *; auto; intros; try discriminate.
+      * cbn. exact Hq.
+      * cbn. auto.
+      * cbn. unfold live in *. cbn. rewrite Hl. discriminate.
+    + intros x'. rewrite get_emits, get_modc_eq, Hx. cbn. intros H. inv H.
+      destruct FQ0 as [_ Q0]. destruct Q0. apply (q_stable0 c x Hx).
+Qed.
+
+Lemma fq_act_garb : forall ns g q c s, FQ ns g q s -> FQ ns g q (act_garb c s).
+Proof.
+  intros ns g q c s FQ0. unfold act_garb. destruct (get c s) as [x|] eqn:Hx; auto.
+  destruct (negb (c_gone x) && kind_eqb (c_kind x) KRaw && live x) eqn:Hc; auto.
+  apply andb_prop in Hc. destruct Hc as [_ Hl].
+  assert (FX := fq_weak _ _ _ c _ FQ0).
+  eapply fq_fault_close with (x := x); eauto.
+Qed.
+
+(* ------------------------------------------------------------------ the quiescent point *)
+Lemma all_conns_intro : forall m (p : cm -> bool),
+  (forall c, c < k_n m -> p (k_conns m c) = true) -> all_conns m p = true.
+Proof.
+  intros. unfold all_conns. apply forallb_forall. intros c Hc. apply in_seq in Hc. apply H. lia.
+Qed.
+
+Lemma quiet09_conn : forall g sd x y, Rc g sd false x y -> c_ph x <> Queued -> quiet09 y = true.
+Proof.
+  intros g sd x y HR Hq. rc_start HR. unfold quiet09. rewrite Rconn, Racc, Rsp, Rfault. cbn.
+  destruct x as [k p t cu ga il go fa ke]. cbn in *.
+  assert (Hp : ph_acc p && ph_sp p = true).
+  { destruct p; cbn in *; auto; try congruence; specialize (Rdead eq_refl); discriminate. }
+  rewrite Hp. cbn. destruct fa; cbn; auto.
+  destruct (Nat.eqb_spec (m_begun y) (m_envdone y)); cbn; auto.
+  apply Nat.eqb_eq. rewrite Rresp by auto. lia.
+Qed.
+
+Lemma quiet09_ok : forall ns g q s, FQ ns g q s -> chk09 (mstate s) OQuiet = true.
+Proof.
+  intros ns g q s [F Q]. destruct (full_rel _ _ _ _ F). destruct Q. cbn.
+  destruct (k_cause (mstate s)) eqn:Hc; auto. cbn.
+  assert (Hd : srv_done s = false).
+  { destruct (srv_done s) eqn:Hd; auto.
+    assert (false = true) by (apply g_cause0; now rewrite !orb_true_r). discriminate. }
+  assert (Hs : k_server (mstate s) = None).
+  { rewrite g_server0. unfold srv_done in Hd. destruct (s_srv s); auto; discriminate. }
+  rewrite Hs. cbn. apply all_conns_intro. intros c Hlt. rewrite g_n0 in Hlt.
+  destruct (nth_error (s_conns s) c) as [x|] eqn:Hx; [| apply nth_error_None in Hx; lia].
+  specialize (g_conns0 c x Hx).
+  eapply quiet09_conn; eauto.
+Qed.
+
+Lemma quiet07_ok : forall g q s, FQ true g q s -> chk07 (mstate s) OQuiet = true.
+Proof.
+  intros g q s [F Q]. destruct F as [R [_ G7]]. destruct (G7 eq_refl) as [NS _]. destruct R. destruct Q. cbn.
+  rewrite g_fired0. destruct (s_fired s) eqn:Hf; auto. cbn.
+  assert (Hd := q_fired0 eq_refl). assert (Hg := g_grace0 eq_refl).
+  assert (Hw : watch_closed g s = true) by (unfold watch_closed; now rewrite Hg, Hd).
+  rewrite g_server0. unfold srv_done in Hd. destruct (s_srv s) eqn:Hs; try discriminate. cbn.
+  apply all_conns_intro. intros c Hlt. rewrite g_n0 in Hlt.
+  destruct (nth_error (s_conns s) c) as [x|] eqn:Hx; [| apply nth_error_None in Hx; lia].
+  specialize (g_conns0 c x Hx). specialize (q_told0 Hw c x Hx). specialize (q_stable0 c x Hx).
+  specialize (NS) as NS'. unfold NoSilentK in NS'. specialize (fun H => NS' H c x Hx).
+  rc_start g_conns0. unfold quiet07. rewrite Rsp, Rfault, Rdone, Rtold.
+  unfold closes, live, drained, h2silent in *.
+  destruct x as [k p t cu ga il go fa ke]. cbn in *.
+  destruct p; cbn in *; auto; destruct fa; cbn; auto.
+  - (* Sniffing: told, so it would have closed *)
+    rewrite q_told0 in * by auto. cbn in *. discriminate.
+  - (* Open *)
+    rewrite q_told0 in * by auto. cbn in *.
+    destruct (Nat.eqb_spec (m_begun (k_conns (mstate s) c)) (m_envdone (k_conns (mstate s) c))); cbn; auto.
+    exfalso. specialize (Rbegun eq_refl). destruct il; cbn in *; [| lia]. destruct cu; cbn in *; [lia |].
+    destruct (is_h2proto (g_proto g)); cbn in *; [| discriminate].
+    destruct (NS' eq_refl) as [H1 H2]. rewrite H1, H2 in q_stable0. cbn in *. discriminate.
+  - (* Closed *)
+    destruct (Nat.eqb_spec (m_begun (k_conns (mstate s) c)) (m_envdone (k_conns (mstate s) c))); cbn; auto.
+    apply Nat.leb_le. destruct (Rquiet eq_refl) as [-> _]. specialize (Rhb eq_refl). cbn in *. lia.
+Qed.
+
+Lemma full_quiet : forall ns g q s, FQ ns g q s -> Full ns g q (emit OQuiet s).
+Proof.
+  intros ns g q s H. destruct H as [F Q] eqn:E. apply full_emit_plain; auto.
+  - eapply quiet09_ok; split; eauto.
+  - intros ->. eapply quiet07_ok; split; eauto.
+Qed.
+
+(* ------------------------------------------------------------------ the remaining events *)
+Lemma rc_cause_any : forall g sd cz x y, Rc g sd cz x y -> Rc g sd true x y.
+Proof. intros g sd cz x y []. constructor; auto. Qed.
+
+Lemma rc_new_conn : forall g sd cz k, Rc g sd cz (new_conn k) (cm_conn cm0).
+Proof. intros. constructor; cbn; auto; intros; try discriminate; lia. Qed.
+
+Definition allowed (g : cfg) (e : ev) : Prop :=
+  match e with
+  | EConnect k => is_h2proto (g_proto g) = true -> kind_eqb k KRaw = false /\ kind_eqb k KCut = false
+  | _ => True
+  end.
+
+Lemma full_connect : forall ns g s k,
+  Full ns g (s_queue s) s -> (ns = true -> allowed g (EConnect k)) ->
+  Full ns g (s_queue (step g s (EConnect k))) (step g s (EConnect k)).
+Proof.
+  intros ns g s k [R [G9 G7]] Hal.
+  set (c := length (s_conns s)).
+  set (s1 := emit (OConnect c) (set_conns (s_conns s ++ [new_conn k]) s)).
+  assert (Hm : mstate s1 = updc c cm_conn (mstate s)).
+  { subst s1. rewrite mstate_emit. reflexivity. }
+  assert (F1 : forall q', (forall c', In (QLive c') (s_queue s) -> In (QLive c') q') ->
+                          (srv_done s || s_lost s = false -> In (QLive c) q') ->
+                          Full ns g q' s1).
+  { intros q' Hq1 Hq2. destruct R. split; [| split].
+    - rewrite Hm. constructor; cbn; auto.
+      + rewrite app_length. cbn. fold c. lia.
+      + intros c' x Hn. destruct (Nat.eq_dec c' c) as [-> | Hne].
+        * rewrite Nat.eqb_refl. rewrite nth_error_app2 in Hn by (fold c; lia). fold c in Hn.
+          rewrite Nat.sub_diag in Hn. cbn in Hn. inv Hn. rewrite g_fresh0 by (fold c; lia).
+          apply rc_new_conn.
+        * destruct (Nat.eqb_spec c' c); [congruence |].
+          assert (c' < c).
+          { assert (c' < length (s_conns s ++ [new_conn k])) by (apply nth_error_Some; congruence).
+            rewrite app_length in H. cbn in H. fold c in H. lia. }
+          rewrite nth_error_app1 in Hn by (fold c; lia). auto.
+      + intros c' Hc'. rewrite app_length in Hc'. cbn in Hc'. fold c in Hc'.
+        destruct (Nat.eqb_spec c' c); [lia |]. apply g_fresh0. fold c. lia.
+      + intros Hf c' x Hn Hcut. destruct (Nat.eq_dec c' c) as [-> | Hne].
+        * rewrite nth_error_app2 in Hn by (fold c; lia). fold c in Hn.
+          rewrite Nat.sub_diag in Hn. cbn in Hn. inv Hn. discriminate.
+        * assert (c' < c).
+          { assert (c' < length (s_conns s ++ [new_conn k])) by (apply nth_error_Some; congruence).
+            rewrite app_length in H. cbn in H. fold c in H. lia. }
+          rewrite nth_error_app1 in Hn by (fold c; lia). eauto.
+      + intros c' x Hn Hp. destruct (Nat.eq_dec c' c) as [-> | Hne].
+        * change (srv_done (set_conns (s_conns s ++ [new_conn k]) s)) with (srv_done s).
+          destruct (srv_done s) eqn:Hd; auto. destruct (s_lost s) eqn:Hl; auto.
+        * assert (c' < c).
+          { assert (c' < length (s_conns s ++ [new_conn k])) by (apply nth_error_Some; congruence).
+            rewrite app_length in H. cbn in H. fold c in H. lia. }
+          rewrite nth_error_app1 in Hn by (fold c; lia).
+          destruct (g_queue0 c' x Hn Hp) as [H1 | H1]; auto.
+    - subst s1. apply good_emit; [eapply good_out; [| exact G9]; reflexivity | reflexivity].
+    - intros Hns. destruct (G7 Hns) as [NS G]. split.
+      + intros Hp c' x Hn. cbn in Hn. destruct (Nat.eq_dec c' c) as [-> | Hne].
+        * rewrite nth_error_app2 in Hn by (fold c; lia). fold c in Hn.
+          rewrite Nat.sub_diag in Hn. cbn in Hn. inv Hn. cbn. apply (Hal eq_refl Hp).
+        * assert (c' < c).
+          { assert (c' < length (s_conns s ++ [new_conn k])) by (apply nth_error_Some; congruence).
+            rewrite app_length in H. cbn in H. fold c in H. lia. }
+          rewrite nth_error_app1 in Hn by (fold c; lia). eapply NS; eauto.
+      + subst s1. apply good_emit; [eapply good_out; [| exact G]; reflexivity | reflexivity]. }
+  cbn [step]. fold c. fold s1.
+  destruct (srv_done s || s_lost s) eqn:Hdl.
+  - apply F1; auto. intros; discriminate.
+  - apply full_set_queue. cbn [set_queue s_queue]. apply F1.
+    + intros c' H. apply in_or_app. auto.
+    + intros _. apply in_or_app. right. now left.
+Qed.
+
+Lemma full_cancelled : forall ns g s,
+  Full ns g (s_queue s) s -> Full ns g (s_queue (step g s ECancelled)) (step g s ECancelled).
+Proof.
+  intros ns g s F. cbn [step].
+  assert (F1 : forall q', (forall c', In (QLive c') (s_queue s) -> In (QLive c') q') -> Full ns g q' (emit OCancel s)).
+  { intros q' Hq. apply full_emit_plain; auto. eapply full_queue_param; [exact F |]. auto. }
+  destruct (srv_done s || s_lost s).
+  - apply F1. auto.
+  - apply full_set_queue. cbn [set_queue s_queue]. apply F1. intros c' H. apply in_or_app. auto.
+Qed.
+
+(* listener lost / make-service armed: a legitimate cause is recorded *)
+Lemma full_cause : forall ns g q s s' o,
+  Full ns g q s ->
+  track (mstate s) o = mkMs (k_fired (mstate s)) true (k_server (mstate s)) (k_n (mstate s))
+                            (k_conns (mstate s)) (k_snap (mstate s)) ->
+  chk09 (mstate s) o = true -> chk07 (mstate s) o = true ->
+  s_out s' = o :: s_out s -> s_srv s' = s_srv s -> s_fired s' = s_fired s -> s_conns s' = s_conns s ->
+  (s_lost s = true -> s_lost s' = true) ->
+  Full ns g q s'.
+Proof.
+  intros ns g q s s' o [R [G9 G7]] Ht H9 H7 Ho Hs Hf Hc Hl.
+  assert (Hm : mstate s' = track (mstate s) o).
+  { unfold mstate, trace. rewrite Ho. cbn. unfold tracks. now rewrite fold_left_app. }
+  assert (Gd : forall chk, Good chk s -> chk (mstate s) o = true -> Good chk s').
+  { intros chk G H. unfold Good, trace in *. rewrite Ho. cbn. rewrite mon_from_app, G. cbn.
+    unfold mstate, trace in H. now rewrite H. }
+  destruct R. split; [| split].
+  - rewrite Hm, Ht. constructor; cbn; unfold srv_done; rewrite ?Hs, ?Hf, ?Hc; auto.
+    + intros c x Hn. eapply rc_cause_any. apply g_conns0. exact Hn.
+    + intros c x Hn Hp. destruct (g_queue0 c x Hn Hp) as [H | [H | H]]; auto.
+  - apply Gd; auto.
+  - intros Hns. destruct (G7 Hns) as [NS G]. split.
+    + intros Hp c x Hn. rewrite Hc in Hn. eapply NS; eauto.
+    + apply Gd; auto.
+Qed.
+
+Lemma full_signal : forall ns g s,
+  Full ns g (s_queue s) s -> Full ns g (s_queue (step g s ESignal)) (step g s ESignal).
+Proof.
+  intros ns g s F. cbn [step]. destruct (g_graceful g && negb (s_fired s)) eqn:Hc; auto.
+  apply andb_prop in Hc. destruct Hc as [Hg Hnf]. apply negb_true_iff in Hnf.
+  destruct F as [R [G9 G7]].
+  assert (Hm : mstate (emit OSignal (set_fired true s)) = track (mstate s) OSignal).
+  { rewrite mstate_emit. reflexivity. }
+  destruct R. split; [| split].
+  - rewrite Hm. constructor; cbn; auto.
+    + intros c x Hn. eapply rc_cause_any. apply g_conns0. exact Hn.
+    + intros _ c x Hn Hcut. specialize (g_conns0 c x Hn). rc_start g_conns0.
+      unfold idle_cm. rewrite Rfault. destruct (c_faulty x) eqn:Hfa; cbn; [now rewrite !andb_false_r |].
+      specialize (Rbegun eq_refl). specialize (Rresp eq_refl). rewrite Hcut in Rbegun. cbn in Rbegun.
+      destruct (Nat.eqb_spec (m_begun (k_conns (mstate s) c)) (m_resp (k_conns (mstate s) c))); [lia |].
+      now rewrite !andb_false_r.
+  - apply good_emit; [eapply good_out; [| exact G9]; reflexivity | reflexivity].
+  - intros Hns. destruct (G7 Hns) as [NS G]. split; [exact NS |].
+    apply good_emit; [eapply good_out; [| exact G]; reflexivity | reflexivity].
+Qed.
+
+(* ------------------------------------------------------------------ one event, all events *)
+Lemma full_step : forall ns g s e,
+  Full ns g (s_queue s) s -> (ns = true -> allowed g e) ->
+  Full ns g (s_queue (step g s e)) (step g s e).
+Proof.
+  intros ns g s e F Hal.
+  assert (Act : forall act : state -> state,
+            (forall q s0, FQ ns g q s0 -> FQ ns g q (act s0)) ->
+            Full ns g (s_queue (emit OQuiet (act (settle g s)))) (emit OQuiet (act (settle g s)))).
+  { intros act Hact. destruct (settle_spec ns g s F) as [F1 Q1].
+    apply full_quiet. apply Hact. split; auto. }
+  destruct e; cbn [step].
+  - now apply full_connect.
+  - now apply full_cancelled.
+  - destruct (s_lost s) eqn:Hl; auto.
+    eapply full_cause with (s := s) (o := OLost); eauto; try reflexivity.
+  - eapply full_cause with (s := s) (o := OMakeArm); eauto; try reflexivity.
+  - now apply full_signal.
+  - apply (Act (fun s0 => s0)). auto.
+  - apply (Act (act_partial g c)). intros. now apply fq_act_partial.
+  - apply (Act (act_req g c)). intros. now apply fq_act_req.
+  - apply (Act (act_step g c)). intros. now apply fq_act_step.
+  - apply (Act (act_disc c)). intros. now apply fq_act_disc.
+  - apply (Act (act_garb c)). intros. now apply fq_act_garb.
+  - apply (Act (act_herr g c)). intros. now apply fq_act_herr.
+Qed.
+
+Lemma full_init : forall ns g, Full ns g (s_queue init) init.
+Proof.
+  intros. split; [| split].
+  - constructor; cbn; auto; try discriminate.
+    + intros [|c] x H; discriminate.
+    + intros [|c] x H; discriminate.
+  - reflexivity.
+  - intros _. split; [| reflexivity]. intros _ [|c] x H; discriminate.
+Qed.
+
+Lemma full_run : forall ns g evs s,
+  Full ns g (s_queue s) s -> (ns = true -> Forall (allowed g) evs) ->
+  Full ns g (s_queue (run_from g s evs)) (run_from g s evs).
+Proof.
+  intros ns g evs. induction evs as [|e evs IH]; intros s F Hal; cbn; auto.
+  apply IH.
+  - apply full_step; auto. intros Hns. specialize (Hal Hns). now inv Hal.
+  - intros Hns. specialize (Hal Hns). now inv Hal.
+Qed.
+
+(* the hypothesis under which C07 is proved: an HTTP/2-only server never meets a client that
+   does not complete the HTTP/2 preface (known finding D15) *)
+Definition h2_preface_done (g : cfg) (evs : list ev) : Prop := Forall (allowed g) evs.
+
+Theorem model_mon_C09 : forall g evs, mon_C09 (trace (run g evs)) = true.
+Proof.
+  intros g evs. destruct (full_run false g evs init (full_init false g)) as [_ [G _]].
+  - discriminate.
+  - exact G.
+Qed.
+
+Theorem model_mon_C07 : forall g evs, h2_preface_done g evs -> mon_C07 (trace (run g evs)) = true.
+Proof.
+  intros g evs H. destruct (full_run true g evs init (full_init true g)) as [_ [_ G]].
+  - intros _. exact H.
+  - destruct (G eq_refl) as [_ G7]. exact G7.
+Qed.
+
+(* ------------------------------------------------------------------ reading the monitors
+   Facts about the monitors alone (any trace), used to restate what they demand as propositions
+   about the model's trace. *)
+Definition is_cause (o : oev) : bool := match o with OSignal | OLost | OMakeArm => true | _ => false end.
+Definition is_told (c : nat) (o : oev) : bool := match o with OTold c' => Nat.eqb c' c | _ => false end.
+
+Lemma mon_from_split : forall chk a o b m,
+  mon_from chk m (a ++ o :: b) = true ->
+  mon_from chk m a = true /\ chk (tracks m a) o = true /\ mon_from chk (track (tracks m a) o) b = true.
+Proof.
+  intros chk a o b m H. rewrite mon_from_app in H. apply andb_prop in H. destruct H as [H1 H2].
+  cbn in H2. apply andb_prop in H2. tauto.
+Qed.
+
+Lemma fired_track : forall m o, k_fired m = true -> k_fired (track m o) = true.
+Proof. intros m o H. destruct o; cbn; auto. Qed.
+
+Lemma fired_tracks : forall tr m, k_fired m = true -> k_fired (tracks m tr) = true.
+Proof. induction tr; cbn; intros; auto. apply IHtr. now apply fired_track. Qed.
+
+Lemma cause_source : forall tr m,
+  k_cause (tracks m tr) = true -> k_cause m = true \/ existsb is_cause tr = true.
+Proof.
+  induction tr as [|o tr IH]; cbn; intros m H; auto.
+  destruct (IH _ H) as [H1 | H1].
+  - destruct o; cbn in *; auto.
+  - right. now rewrite H1, orb_true_r.
+Qed.
+
+Lemma server_source : forall tr m r,
+  k_server (tracks m tr) = Some r -> k_server m = Some r \/ In (OServer r) tr.
+Proof.
+  induction tr as [|o tr IH]; cbn; intros m r H; auto.
+  destruct (IH _ _ H) as [H1 | H1]; auto.
+  destruct o; cbn in *; auto. inv H1. auto.
+Qed.
+
+Lemma after_signal : forall tr m,
+  k_fired m = true -> mon_from chk07 m tr = true ->
+  (forall c, ~ In (OAccept c) tr) /\ (forall c, ~ In (OSpawn c) tr) /\ (forall r, In (OServer r) tr -> r = true).
+Proof.
+  induction tr as [|o tr IH]; intros m Hf H.
+  - cbn. repeat split; intros; auto; try contradiction.
+  - cbn in H. apply andb_prop in H. destruct H as [H0 H].
+    destruct (IH _ (fired_track _ o Hf) H) as (A & B & C).
+    repeat split.
+    + intros c [-> | Hi]; [| eapply A; eauto]. cbn in H0. rewrite Hf in H0. discriminate.
+    + intros c [-> | Hi]; [| eapply B; eauto]. cbn in H0. rewrite Hf in H0. discriminate.
+    + intros r [-> | Hi]; [| eapply C; eauto]. cbn in H0. rewrite Hf in H0. exact H0.
+Qed.
+
+Lemma told_track_other : forall m o c, is_told c o = false ->
+  m_told (k_conns (track m o) c) = m_told (k_conns m c).
+Proof.
+  intros m o c H. destruct o; cbn in *; auto;
+    try (destruct (Nat.eqb_spec c c0); subst; cbn; auto).
+  rewrite Nat.eqb_refl in H. discriminate.
+Qed.
+
+Lemma told_once : forall c tr m,
+  mon_from chk07 m tr = true -> m_told (k_conns m c) <= 1 ->
+  m_told (k_conns m c) + length (filter (is_told c) tr) <= 1.
+Proof.
+  intros c. induction tr as [|o tr IH]; intros m H Hle; cbn; [lia |].
+  cbn in H. apply andb_prop in H. destruct H as [H0 H].
+  destruct (is_told c o) eqn:Ht.
+  - destruct o; try discriminate. cbn in Ht. apply Nat.eqb_eq in Ht. subst c0.
+    cbn in H0. apply Nat.eqb_eq in H0.
+    specialize (IH _ H). cbn in IH. rewrite Nat.eqb_refl in IH. cbn in IH. rewrite H0 in *. cbn in *.
+    specialize (IH ltac:(lia)). lia.
+  - specialize (IH _ H). rewrite told_track_other in IH by auto. auto.
+Qed.
+
+Lemma all_conns_elim : forall m p c, all_conns m p = true -> c < k_n m -> p (k_conns m c) = true.
+Proof.
+  intros m p c H Hc. unfold all_conns in H. rewrite forallb_forall in H. apply H. apply in_seq. lia.
+Qed.
+
+Lemma signal_fired : forall tr m, In OSignal tr -> k_fired (tracks m tr) = true.
+Proof.
+  induction tr as [|o tr IH]; cbn; intros m H; [contradiction |].
+  destruct H as [-> | H]; [apply fired_tracks; reflexivity | now apply IH].
+Qed.
+
+(* what mon_C07 demands of a connection at a quiescent point after the signal *)
+Definition settled07 (y : cm) : Prop :=
+  m_spawned y = true -> m_fault y = false ->
+  (m_done y = true \/ m_told y = 1)
+  /\ (m_begun y = m_envdone y -> m_done y = true /\ m_hb y <= m_resp y).
+
+Lemma quiet07_read : forall y, quiet07 y = true -> settled07 y.
+Proof.
+  unfold quiet07, settled07. intros y H Hs Hf. rewrite Hs, Hf in H. cbn in H.
+  apply andb_prop in H. destruct H as [H1 H2]. split.
+  - apply orb_prop in H1. destruct H1 as [H1 | H1]; auto. right. now apply Nat.eqb_eq.
+  - intros He. apply orb_prop in H2. destruct H2 as [H2 | H2].
+    + apply negb_true_iff, Nat.eqb_neq in H2. contradiction.
+    + apply andb_prop in H2. destruct H2 as [H2 H3]. split; auto. now apply Nat.leb_le.
+Qed.
+
+(* what mon_C09 demands of a connection at a quiescent point while no cause has been seen *)
+Definition settled09 (y : cm) : Prop :=
+  (m_connected y = true -> m_accepted y = true /\ m_spawned y = true)
+  /\ (m_fault y = false -> m_begun y = m_envdone y -> m_resp y = m_begun y).
+
+Lemma quiet09_read : forall y, quiet09 y = true -> settled09 y.
+Proof.
+  unfold quiet09, settled09. intros y H. apply andb_prop in H. destruct H as [H1 H2]. split.
+  - intros Hc. rewrite Hc in H1. cbn in H1. apply andb_prop in H1. tauto.
+  - intros Hf He. rewrite Hf in H2. cbn in H2. apply orb_prop in H2. destruct H2 as [H2 | H2].
+    + apply negb_true_iff, Nat.eqb_neq in H2. contradiction.
+    + now apply Nat.eqb_eq.
+Qed.
+
+Lemma chk07_quiet : forall m, chk07 m OQuiet = true -> k_fired m = true ->
+  (exists r, k_server m = Some r) /\ all_conns m quiet07 = true.
+Proof.
+  intros m H Hf. cbn in H. rewrite Hf in H. cbn in H. apply andb_prop in H. destruct H as [H1 H2].
+  split; auto. destruct (k_server m) as [r|]; [eauto | discriminate].
+Qed.
+
+Lemma chk09_quiet : forall m, chk09 m OQuiet = true -> k_cause m = false ->
+  k_server m = None /\ all_conns m quiet09 = true.
+Proof.
+  intros m H Hc. cbn in H. rewrite Hc in H. cbn in H. apply andb_prop in H. destruct H as [H1 H2].
+  split; auto. destruct (k_server m); [discriminate | auto].
+Qed.
+
+(* ------------------------------------------------------------------ Prop-level readings *)
+Theorem c07_stops_accepting_proof : forall g evs tr1 tr2,
+  h2_preface_done g evs -> trace (run g evs) = tr1 ++ OSignal :: tr2 ->
+  (forall c, ~ In (OAccept c) tr2) /\ (forall c, ~ In (OSpawn c) tr2)
+  /\ (forall r, In (OServer r) tr2 -> r = true)
+  /\ (forall a b, tr2 = a ++ OQuiet :: b -> exists r, In (OServer r) (tr1 ++ OSignal :: a)).
+Proof.
+  intros g evs tr1 tr2 Hh Ht. assert (M := model_mon_C07 g evs Hh). unfold mon_C07 in M. rewrite Ht in M.
+  apply mon_from_split in M. destruct M as (_ & _ & M).
+  assert (Hf : k_fired (track (tracks ms0 tr1) OSignal) = true) by reflexivity.
+  destruct (after_signal _ _ Hf M) as (A & B & C). repeat split; auto.
+  intros a b ->. apply mon_from_split in M. destruct M as (_ & M & _).
+  apply chk07_quiet in M; [| now apply fired_tracks]. destruct M as [[r Hs] _].
+  exists r. change (track (tracks ms0 tr1) OSignal) with (tracks (tracks ms0 tr1) [OSignal]) in Hs.
+  rewrite <- !tracks_app in Hs. apply server_source in Hs. destruct Hs as [Hs | Hs]; [discriminate |].
+  rewrite <- ?app_assoc in Hs. exact Hs.
+Qed.
+
+Theorem c07_every_driver_told_once_proof : forall g evs c,
+  h2_preface_done g evs ->
+  length (filter (is_told c) (trace (run g evs))) <= 1
+  /\ forall a b, trace (run g evs) = a ++ OQuiet :: b -> In OSignal a ->
+     c < k_n (tracks ms0 a) -> settled07 (k_conns (tracks ms0 a) c).
+Proof.
+  intros g evs c Hh. assert (M := model_mon_C07 g evs Hh). unfold mon_C07 in M. split.
+  - apply (told_once c) in M; cbn in *; lia.
+  - intros a b Ht Hs Hc. rewrite Ht in M. apply mon_from_split in M. destruct M as (_ & M & _).
+    apply chk07_quiet in M; [| now apply signal_fired]. destruct M as [_ M].
+    apply quiet07_read. now apply all_conns_elim.
+Qed.
+
+Theorem c09_survives_proof : forall g evs,
+  existsb is_cause (trace (run g evs)) = false -> serving_result (run g evs) = StillServing.
+Proof.
+  intros g evs H. destruct (full_run false g evs init (full_init false g)) as [R _]; [discriminate |].
+  destruct R. fold (run g evs) in *. unfold serving_result.
+  destruct (s_srv (run g evs)) eqn:Hs; auto.
+  assert (Hc : k_cause (mstate (run g evs)) = true).
+  { apply g_cause0. unfold srv_done. rewrite Hs. now rewrite !orb_true_r. }
+  apply cause_source in Hc. destruct Hc as [Hc | Hc]; [discriminate | congruence].
+Qed.
+
+Theorem c09_others_served_proof : forall g evs a b c,
+  trace (run g evs) = a ++ OQuiet :: b -> existsb is_cause a = false ->
+  k_server (tracks ms0 a) = None
+  /\ (c < k_n (tracks ms0 a) -> settled09 (k_conns (tracks ms0 a) c)).
+Proof.
+  intros g evs a b c Ht Hn. assert (M := model_mon_C09 g evs). unfold mon_C09 in M. rewrite Ht in M.
+  apply mon_from_split in M. destruct M as (_ & M & _).
+  destruct (k_cause (tracks ms0 a)) eqn:Hc.
+  { apply cause_source in Hc. destruct Hc as [Hc | Hc]; [discriminate | congruence]. }
+  apply chk09_quiet in M; auto. destruct M as [M1 M2]. split; auto.
+  intros Hlt. apply quiet09_read. now apply all_conns_elim.
+Qed.
+
+(* ------------------------------------------------------------------ where cause echoes come from
+   OSignal / OLost / OMakeArm are emitted by the events ESignal / ELost / EMakeFail only. *)
+Definition causes (s : state) : list oev := filter is_cause (s_out s).
+Definition is_cause_ev (e : ev) : bool := match e with ESignal | ELost | EMakeFail => true | _ => false end.
+
+Ltac causes_tac :=
+  repeat (match goal with |- context [match ?x with _ => _ end] => destruct x eqn:? end);
+  cbn; try reflexivity.
+
+Lemma causes_close : forall g c s, causes (close_if_idle g c s) = causes s.
+Proof. intros. unfold causes, close_if_idle. causes_tac. Qed.
+
+Lemma causes_mark : forall c s, causes (mark_told s c) = causes s.
+Proof. intros. unfold causes, mark_told. causes_tac. Qed.
+
+Lemma causes_drive : forall g s c, causes (drive g s c) = causes s.
+Proof.
+  intros. unfold drive. rewrite causes_close. destruct (watch_closed g s); auto. apply causes_mark.
+Qed.
+
+Lemma causes_refuse : forall s c, causes (refuse s c) = causes s.
+Proof. intros. unfold causes, refuse. causes_tac. Qed.
+
+Lemma causes_fold : forall (f : state -> nat -> state) l s,
+  (forall s c, causes (f s c) = causes s) -> causes (fold_left f l s) = causes s.
+Proof. induction l; cbn; intros; auto. rewrite IHl; auto. Qed.
+
+Lemma causes_accept_loop : forall g q s, causes (accept_loop g q s) = causes s.
+Proof.
+  intros g q. induction q as [|e q IH]; intros s; cbn [accept_loop].
+  - unfold causes. causes_tac.
+  - destruct e as [c|]; auto. destruct (get c s) as [x|]; auto. destruct (c_ph x); auto.
+    change (s_armed (emit (OAccept c) s)) with (s_armed s). destruct (s_armed s).
+    + reflexivity.
+    + rewrite IH. reflexivity.
+Qed.
+
+Lemma causes_settle : forall g s, causes (settle g s) = causes s.
+Proof.
+  intros. unfold settle, drive_all, refuse_queued, server_poll.
+  rewrite causes_fold by apply causes_drive.
+  assert (H : forall s', causes (if srv_done s' then fold_left refuse (seq 0 (length (s_conns s'))) s' else s') = causes s').
+  { intros s'. destruct (srv_done s'); auto. apply causes_fold. apply causes_refuse. }
+  rewrite H. destruct (s_srv s); auto.
+  all: destruct (g_graceful g && s_fired s); [reflexivity | apply causes_accept_loop].
+Qed.
+
+Lemma causes_act_partial : forall g c s, causes (act_partial g c s) = causes s.
+Proof. intros. unfold causes, act_partial. causes_tac. Qed.
+
+Lemma causes_open_gate : forall g c s, causes (open_gate g c s) = causes s.
+Proof.
+  intros. unfold open_gate. destruct (get c s); auto. destruct (kind_eqb (c_kind c0) KCut && c_gate c0); auto.
+  now rewrite causes_close.
+Qed.
+
+Lemma causes_act_req : forall g c s, causes (act_req g c s) = causes s.
+Proof.
+  intros. unfold act_req. destruct (get c s); auto. destruct (c_gone c0); auto.
+  rewrite <- (causes_open_gate g c s). set (s1 := open_gate g c s). clearbody s1.
+  unfold causes. causes_tac.
+Qed.
+
+Lemma causes_act_step : forall g c s, causes (act_step g c s) = causes s.
+Proof.
+  intros. unfold act_step. destruct (get c s); auto. destruct (c_gone c0); auto.
+  destruct (c_infl c0); auto. destruct (Nat.leb n 1); [| reflexivity]. now rewrite causes_close.
+Qed.
+
+Lemma causes_act_herr : forall g c s, causes (act_herr g c s) = causes s.
+Proof.
+  intros. unfold act_herr. destruct (get c s); auto. destruct (c_gone c0); auto.
+  destruct (c_infl c0); auto. destruct (Nat.eqb n 2); auto.
+  destruct (kind_eqb (c_kind c0) KH1); [reflexivity | now rewrite causes_close].
+Qed.
+
+Lemma causes_act_disc : forall c s, causes (act_disc c s) = causes s.
+Proof. intros. unfold causes, act_disc. causes_tac. Qed.
+
+Lemma causes_act_garb : forall c s, causes (act_garb c s) = causes s.
+Proof. intros. unfold causes, act_garb. causes_tac. Qed.
+
+Lemma causes_step : forall g s e, is_cause_ev e = false -> causes (step g s e) = causes s.
+Proof.
+  intros g s e H. destruct e; try discriminate; cbn [step].
+  - unfold causes. causes_tac.
+  - unfold causes. causes_tac.
+  - change (causes (emit OQuiet (settle g s))) with (causes (settle g s)). apply causes_settle.
+  - change (causes (act_partial g c (settle g s)) = causes s). now rewrite causes_act_partial, causes_settle.
+  - change (causes (act_req g c (settle g s)) = causes s). now rewrite causes_act_req, causes_settle.
+  - change (causes (act_step g c (settle g s)) = causes s). now rewrite causes_act_step, causes_settle.
+  - change (causes (act_disc c (settle g s)) = causes s). now rewrite causes_act_disc, causes_settle.
+  - change (causes (act_garb c (settle g s)) = causes s). now rewrite causes_act_garb, causes_settle.
+  - change (causes (act_herr g c (settle g s)) = causes s). now rewrite causes_act_herr, causes_settle.
+Qed.
+
+Lemma causes_run : forall g evs s,
+  existsb is_cause_ev evs = false -> causes (run_from g s evs) = causes s.
+Proof.
+  intros g evs. induction evs as [|e evs IH]; cbn; intros s H; auto.
+  apply orb_false_iff in H. destruct H as [H1 H2]. rewrite IH by auto. now apply causes_step.
+Qed.
+
+Lemma existsb_filter_nil : forall (A : Type) (p : A -> bool) l, filter p l = [] -> existsb p l = false.
+Proof.
+  induction l as [|a l IH]; cbn; auto. destruct (p a); cbn; [discriminate | auto].
+Qed.
+
+Lemma no_cause_echo : forall g evs,
+  existsb is_cause_ev evs = false -> existsb is_cause (trace (run g evs)) = false.
+Proof.
+  intros g evs H. unfold trace.
+  assert (Hc := causes_run g evs init H). unfold causes in Hc. cbn in Hc.
+  apply existsb_filter_nil in Hc.
+  destruct (existsb is_cause (rev (s_out (run g evs)))) eqn:E; auto.
+  apply existsb_exists in E. destruct E as (o & Ho & Hp). apply in_rev in Ho.
+  assert (existsb is_cause (s_out (run g evs)) = true) by (apply existsb_exists; eauto).
+  unfold run in H0. congruence.
+Qed.
+
+Definition no_signal (evs : list ev) : Prop := ~ In ESignal evs.
+Definition no_listener_loss (evs : list ev) : Prop := ~ In ELost evs.
+Definition no_make_failure (evs : list ev) : Prop := ~ In EMakeFail evs.
+
+Lemma no_cause_events : forall evs,
+  no_listener_loss evs -> no_make_failure evs -> no_signal evs -> existsb is_cause_ev evs = false.
+Proof.
+  intros evs A B C. destruct (existsb is_cause_ev evs) eqn:E; auto.
+  apply existsb_exists in E. destruct E as (e & He & Hp). destruct e; try discriminate; contradiction.
+Qed.
+
+Theorem c09_survives_events : forall g evs,
+  no_listener_loss evs -> no_make_failure evs -> no_signal evs ->
+  serving_result (run g evs) = StillServing.
+Proof.
+  intros. apply c09_survives_proof. apply no_cause_echo. now apply no_cause_events.
+Qed.
+
+Lemma existsb_app_false : forall (A : Type) (p : A -> bool) a b,
+  existsb p (a ++ b) = false -> existsb p a = false.
+Proof. intros A p a b H. rewrite existsb_app in H. now apply orb_false_iff in H. Qed.
+
+Theorem c09_others_served_events : forall g evs a b c,
+  no_listener_loss evs -> no_make_failure evs -> no_signal evs ->
+  trace (run g evs) = a ++ OQuiet :: b ->
+  k_server (tracks ms0 a) = None
+  /\ (c < k_n (tracks ms0 a) -> settled09 (k_conns (tracks ms0 a) c)).
+Proof.
+  intros g evs a b c A B C Ht. eapply c09_others_served_proof; eauto.
+  assert (H := no_cause_echo g evs (no_cause_events _ A B C)). rewrite Ht in H.
+  eapply existsb_app_false; eauto.
 Qed.
